@@ -160,15 +160,20 @@ def c07_worker(job):
                     dict(desc, kind='tally')))
             # --- without --skip-failed: must abort, no FASTA
             if len(F) == 1 or rng.random() < 0.2:
-                runC = gen_ref.run_call_variant(case, tag='c', fail=','.join(F), skip_failed=False)
+                thC = 1 if rng.random() < 0.7 else rng.choice([2, 3])
+                runC = gen_ref.run_call_variant(case, tag='c', fail=','.join(F), skip_failed=False,
+                                                threads=thC)
                 out['stats']['noskip_runs'] = out['stats'].get('noskip_runs', 0) + 1
-                descC = dict(desc0, fail=F, skip=False, threads=1)
+                if thC > 1:
+                    out['stats']['noskip_multithread_runs'] = \
+                        out['stats'].get('noskip_multithread_runs', 0) + 1
+                descC = dict(desc0, fail=F, skip=False, threads=thC)
                 if runC.status == 'ok' or runC.fasta_exists:
                     out['violations'].append((
                         f'without --skip-failed, failing units {F} did not abort the command '
                         f'(status {runC.status}, FASTA written: {runC.fasta_exists})',
                         dict(descC, kind='no-abort')))
-                out['cases'].append(('run', ) + model_case(struct, runC, F, 1, False, canon, descC))
+                out['cases'].append(('run', ) + model_case(struct, runC, F, thC, False, canon, descC))
         return out
     except Exception:   # noqa
         out['stats']['worker_error'] = 1
